@@ -8,6 +8,7 @@ re-run under random `--path-exclude file:line` / `--path-include file:line` conf
 touches; original and rewritten behaviour are compared again (class `kf_line_filter_<codemod>`)."""
 from __future__ import annotations
 
+import ast
 import concurrent.futures
 import itertools
 import subprocess
@@ -151,18 +152,21 @@ def families(rng, quick):
         add("sql-parameterization", name, src)
     for name, src in import_alias_programs(rng, 10 if quick else 120):
         add("order-imports", name, src)
+    for name, src, extra in package_import_programs(rng, 14 if quick else 150):
+        out.append({"codemod": "order-imports", "name": name, "source": src, "extra_files": extra})
     # ---- sql-parameterization (benign parameter values): see sql_programs()
     for name, src in sql_programs(rng, 40 if quick else 400):
         add("sql-parameterization", name, src)
     no_concat = {"remove-future-imports", "remove-module-global"}
     for p in out:
-        p["concat_ok"] = p["codemod"] not in no_concat
+        # (a module of a package cannot be concatenated with another program: its relative imports depend on where it is)
+        p["concat_ok"] = p["codemod"] not in no_concat and PLACE not in (p.get("extra_files") or {})
     if quick:
         keep = {}
         rng.shuffle(out)
         for p in out:
             keep.setdefault(p["codemod"], [])
-            if len(keep[p["codemod"]]) < {"sql-parameterization": 24, "use-walrus-if": 20, "lazy-logging": 16}.get(p["codemod"], 12):
+            if len(keep[p["codemod"]]) < {"sql-parameterization": 24, "use-walrus-if": 20, "lazy-logging": 16, "order-imports": 30}.get(p["codemod"], 12):
                 keep[p["codemod"]].append(p)
         out = [p for ps in keep.values() for p in ps]
     return out
@@ -220,6 +224,116 @@ def import_alias_programs(rng, n):
         rng.shuffle(stmts)
         uses = "".join(f"print({b!r}, {b}.__name__)\n" for b in bound)
         out.append((f"aliases:{k}", "\n".join(stmts) + "\n\n" + uses + "print('done')\n"))
+    return out
+
+
+# ---- programs that are PACKAGES: the file under test is a module inside a package tree and is run through a driver, so that
+# relative imports resolve.  extra_files[PLACE] is where the source goes; extra_files["prog.py"] is the driver.
+PLACE = "@place"
+PKG_TREE = {"pkg": ["ROOT"], "pkg.alpha": ["fa", "A"], "pkg.beta": ["fb", "B"],
+            "pkg.util": ["U"], "pkg.util.text": ["shout", "whisper"], "pkg.util.more": ["banner", "M"],
+            "pkg.util.deep": ["D"], "pkg.util.deep.core": ["kernel", "K"],
+            "pkg.util.deep.inner": ["I"], "pkg.util.deep.inner.leaf": ["leaf", "L"],
+            "pkg.other": ["O"], "pkg.other.side": ["side", "S"], "pkg.other.far": ["F"], "pkg.other.far.away": ["away", "W"]}
+PKG_PLACES = ["pkg", "pkg.util", "pkg.other", "pkg.util.deep", "pkg.other.far", "pkg.util.deep.inner"]
+PKG_ABSOLUTE = [("from os.path import join", "join"), ("import xml.etree.ElementTree as ET", "ET"), ("import os", "os"), ("import json as js", "js"),
+                ("from collections import OrderedDict as OD", "OD"), ("from xml.etree import ElementTree", "ElementTree"),
+                ("import os.path as osp", "osp"), ("from pkg.alpha import fa as abs_fa", "abs_fa"), ("import pkg.other.side as abs_side", "abs_side"),
+                ("from email.mime.text import MIMEText", "MIMEText"), ("import sys", "sys")]
+
+
+def package_files():
+    """the package tree: every module defines functions (lower case) and constants whose values name the module they live in"""
+    files = {}
+    is_pkg = lambda m: any(o.startswith(m + ".") for o in PKG_TREE)
+    for m, attrs in PKG_TREE.items():
+        path = m.replace(".", "/") + ("/__init__.py" if is_pkg(m) else ".py")
+        body = ""
+        for a in attrs:
+            body += f"def {a}():\n    return {m + ':' + a!r}\n" if a.islower() else f"{a} = {m + ':' + a!r}\n"
+        files[path] = body
+    return files
+
+
+def package_import_candidates(package):
+    """every from-import a module of `package` can write: (level, text after the dots, imported name); level 1..3 as far as
+    the package is deep; the target a sub-module path below the base (dotted or not) or the base itself (bare `from .. import x`)"""
+    parts = package.split(".")
+    is_pkg = lambda m: any(o.startswith(m + ".") for o in PKG_TREE)
+    out = []
+    for level in range(1, min(3, len(parts)) + 1):
+        base = ".".join(parts[:len(parts) - (level - 1)])
+        for m, attrs in PKG_TREE.items():
+            if m != base and not m.startswith(base + "."):
+                continue
+            rel = m[len(base) + 1:]
+            names = list(attrs)
+            if is_pkg(m):     # sub-modules and sub-packages can be imported from their package as names
+                names += sorted({o[len(m) + 1:].split(".")[0] for o in PKG_TREE if o.startswith(m + ".")})
+            out += [(level, rel, nm) for nm in names]
+    return out
+
+
+def package_import_programs(rng, n):
+    """a module somewhere in the package with an UNSORTED import block: relative from-imports of level 1/2/3 with and without a
+    dotted sub-module path after the dots, bare `from . import a` / `from .. import b`, absolute dotted imports, aliases, several
+    names per statement (also parenthesised over several lines); every bound name is printed with the module it came from.  The
+    first programs are fixed, so that every run has each level with a dotted path."""
+    files = package_files()
+    out = []
+    fixed = [("pkg", [(1, "util.text", "shout"), (1, "", "alpha"), (1, "util", "more"), (1, "util.deep.inner.leaf", "L")]),
+             ("pkg.other", [(2, "util.deep.core", "kernel"), (1, "far.away", "away"), (2, "", "beta"), (1, "side", "S")]),
+             ("pkg.util.deep.inner", [(3, "deep.core", "K"), (3, "deep.inner.leaf", "leaf"), (2, "inner.leaf", "L"), (3, "", "text"), (1, "leaf", "L"),
+                                      (2, "core", "kernel")])]
+    assert all(c in package_import_candidates(pk) for pk, cs in fixed for c in cs)
+    for k in range(n):
+        if k < len(fixed):
+            package, picks = fixed[k]
+        else:
+            package = rng.choice(PKG_PLACES)
+            cands = package_import_candidates(package)
+            dotted = [c for c in cands if "." in c[1]]
+            picks = rng.sample(cands, min(len(cands), rng.randint(2, 5))) + rng.sample(dotted, min(len(dotted), rng.randint(0, 3)))
+        groups, bound, uses = {}, set(), []
+        for level, rel, nm in picks:
+            alias = None
+            if nm in bound or rng.random() < 0.35:
+                alias = f"{nm}_{'abc'[rng.randrange(3)]}{len(uses)}"
+            b = alias or nm
+            if b in bound:
+                continue
+            bound.add(b)
+            uses.append(b)
+            groups.setdefault((level, rel, rng.randrange(2)), []).append(nm + (f" as {alias}" if alias else ""))
+        stmts = []
+        for (level, rel, _), items in groups.items():
+            head = f"from {'.' * level}{rel} import "
+            stmts.append(head + "(\n    " + ",\n    ".join(items) + ",\n)" if len(items) > 1 and rng.random() < 0.4 else head + ", ".join(items))
+        for text, b in rng.sample(PKG_ABSOLUTE, rng.randint(1, 4)):
+            stmts.append(text)
+            uses.append(b)
+        rng.shuffle(stmts)
+        src = "\n".join(stmts) + "\n\n" + "".join(
+            f"print({b!r}, getattr({b}, '__module__', None), getattr({b}, '__name__', None) or {b})\n" for b in uses) + "print('done')\n"
+        mod = package + ".mod_t"
+        # (the sandbox runs isolated: the project directory is put on the path by the driver, as `python -m` would do)
+        driver = ("import os, sys\nsys.path.insert(0, os.path.dirname(os.path.abspath(__file__)))\n"
+                  + (f"import {mod}\n" if rng.random() < 0.5 else f"import runpy\nrunpy.run_module({mod!r}, run_name='__main__')\n"))
+        extra = dict(files)
+        extra[PLACE] = mod.replace(".", "/") + ".py"
+        extra["prog.py"] = driver
+        out.append((f"package:{package}:{k}", src, extra))
+    return out
+
+
+def import_set(source):
+    """the set of (level, module, name, asname) of every import statement of the file, wherever it stands"""
+    out = set()
+    for n in ast.walk(ast.parse(source)):
+        if isinstance(n, ast.Import):
+            out |= {(0, a.name, None, a.asname) for a in n.names}
+        elif isinstance(n, ast.ImportFrom):
+            out |= {(n.level, n.module, a.name, a.asname) for a in n.names}
     return out
 
 
@@ -403,8 +517,10 @@ def corpus_programs():
 def execute(ctx, key, source, extra_files=None):
     d = ctx.scratch / "fam-exec" / key
     d.mkdir(parents=True, exist_ok=True)
-    (d / "prog.py").write_text(source)
-    for name, text in (extra_files or {}).items():
+    extra_files = dict(extra_files or {})
+    place = extra_files.pop(PLACE, None)     # a module of a package: the source goes there, prog.py is the driver
+    for name, text in ([("prog.py", source)] if place is None else []) + list(extra_files.items()) + ([(place, source)] if place else []):
+        (d / name).parent.mkdir(parents=True, exist_ok=True)
         (d / name).write_text(text)
     try:
         p = subprocess.run([core.PY, "-I", "-c", WRAP, "prog.py"], cwd=d, stdout=subprocess.PIPE, stderr=subprocess.DEVNULL, timeout=30,
@@ -420,7 +536,8 @@ def rewrite(ctx, jobs, tag, per_run=40):
     `--path-exclude f1.py:3,f2.py:7,...` (resp. `--path-include`).  Sets job["after"]."""
     groups = {}
     for n, j in enumerate(jobs):
-        j["file"] = f"m{n:05d}.py"
+        place = (j.get("extra_files") or {}).get(PLACE)
+        j["file"] = f"m{n:05d}.py" if place is None else f"p{n:05d}/{place}"     # inside its package, in a project of its own
         mode = "exclude" if j.get("exclude") else "include" if j.get("include") else "plain"
         groups.setdefault((j["codemod"], mode), []).append(j)
     # sql-parameterization needs ~0.6 s per file, the others a few ms: small batches spread it over the worker pool
@@ -433,6 +550,12 @@ def rewrite(ctx, jobs, tag, per_run=40):
         root = ctx.scratch / f"{tag}-{n}"
         root.mkdir(parents=True)
         for j in items:
+            if PLACE in (j.get("extra_files") or {}):
+                for name, text in j["extra_files"].items():
+                    if name != PLACE:
+                        (root / j["file"].split("/")[0] / name).parent.mkdir(parents=True, exist_ok=True)
+                        (root / j["file"].split("/")[0] / name).write_text(text)
+            (root / j["file"]).parent.mkdir(parents=True, exist_ok=True)
             (root / j["file"]).write_text(j["source"])
         args = [str(root), "--output", str(ctx.scratch / f"{tag}-{n}.json"), "--codemod-include", f"pixee:python/{cm}"]
         if mode != "plain":
@@ -479,6 +602,19 @@ def compare(ctx, jobs, tag, cls_prefix, classify=False):
             ctx.count("class:" + known)
         if exp and (b == a or known != exp):
             ctx.notes.append(f"corpus program ({exp}) not reproduced as such: differs={b != a} class={known}: {j['name']}")
+        if j["codemod"] == "order-imports":
+            # structural: sorting the import block neither adds, drops nor alters an imported (level, module, name, alias)
+            try:
+                s0, s1 = import_set(j["source"]), import_set(j["after"])
+            except SyntaxError:
+                s0 = s1 = None
+            if s0 != s1:
+                ctx.violation("order_imports_import_set_changed",
+                              f"order-imports {cfg} changes WHAT is imported in program family {j['name']}: "
+                              f"dropped {sorted(map(str, s0 - s1))} added {sorted(map(str, s1 - s0))}",
+                              {"codemod": j["codemod"], "family": j["name"], "program": j["source"], "rewritten": j["after"],
+                               "exclude": j.get("exclude"), "include": j.get("include"), "extra_files": j.get("extra_files"),
+                               "observed_original": b, "observed_rewritten": a})
         if b != a:
             ctx.violation(known or cls_prefix + j["codemod"].replace("-", "_"),
                           f"{j['codemod']} {cfg} changes the behaviour of program family {j['name']}: {b!r} -> {a!r}",
@@ -598,4 +734,9 @@ def replay(ctx, body):
     print("original  :", b, "  (recorded:", body.get("observed_original"), ")")
     print("rewritten :", a, "  (recorded:", body.get("observed_rewritten"), ")")
     print("expected  : equal observations (C08)")
+    if j["codemod"] == "order-imports" and j["after"]:
+        s0, s1 = import_set(j["source"]), import_set(j["after"])
+        print("imports   : dropped", sorted(map(str, s0 - s1)), "added", sorted(map(str, s1 - s0)), " expected: none")
+        if s0 != s1:
+            return 1
     return 0 if a == b else 1
